@@ -60,6 +60,12 @@ func (tree *ParserT) parseString(qStart, qEnd rune, exec bool) ([]rune, error) {
 			value = append(value, r)
 			tree.crLf()
 
+		case r == '\\' && qStart == '"' && tree.charPos+1 < len(tree.expression):
+			// pre-parse of a double quoted string: an escaped character (eg
+			// \") belongs to the string and must not end it
+			value = append(value, r, tree.expression[tree.charPos+1])
+			tree.charPos++
+
 		case r == qEnd:
 			// end quote
 			goto endString
